@@ -21,7 +21,7 @@ KEY_HERE_SIE = "regression/putdata/GD_HERE/sie/position-is-last-sample-written"
 KEY_OOP_READ = "regression/getdata-after-putdata/out-of-place-encoding/old-file-open/read-restarts-empty-temporary"
 KEY_BZ2_EXTRA = "regression/putdata/bzip2/overwrite-then-write-past-end/extra-zero-samples-appended"
 KEY_SIE_STALE = "regression/putdata/sie/write-at-current-position-after-unflushed-append/stale-fstat-size-truncates"
-KEY_SIE_SEEKPUT = "putdata/sie/after-read-mode-seek-past-end/gap-filled-with-last-run-value"
+KEY_SIE_SEEKPUT = "regression/putdata/sie/after-read-mode-seek-past-end/gap-filled-with-last-run-value"
 KEY_SIE_ZEROLEN = "regression/putdata/sie/overwrite-last-sample-of-one-sample-record-after-single-record-write/zero-length-record"
 
 
@@ -189,9 +189,14 @@ def gen_history(rng, t, enc, nops):
 def main():
     chk = vlib.Check(PID)
     rng = chk.rng
-    proved = chk.prove("Properties_C03")
+    # translator: which variant of the "already there" shortcut of _GD_SampIndSeek the source has (Gen/SieSeek.v)
+    rc, tout = vlib.sh("python3 %s/translate/tr_sieseek.py" % vlib.VERIF)
+    trans_problems = [l for l in tout.splitlines() if l.startswith("PROBLEM")]
+    guarded = "seek_shortcut_guarded = true" in tout
+    proved = chk.prove("Properties_C03", extra_targets=["Gen/SieSeek.vo"])
     chk.cov["trusted_base"] += [
         "Coq 8.16.1 kernel, vm_compute (no native_compute)",
+        "translator translate/tr_sieseek.py (reads the condition of the 'already there' shortcut of _GD_SampIndSeek; the SIE theorems hold for both variants)",
         "codec models coq/C03/Write.v (unencoded pwrite, out-of-place protocol) and coq/C03/Sie.v (cursor machine of sie.c), written by hand from "
         "the C source and validated on every run against the built library (reads and final data file bytes)",
         "POSIX lseek+write semantics (gap reads as zero), stdio positioning in sie.c, zlib/libbz2/liblzma append-only stream writers that zero-pad on forward seek",
@@ -276,8 +281,9 @@ def main():
             cases.append({"dir": d, "t": t, "sex": sex, "enc": enc, "off": off, "spf": spf, "script": sc, "expect": expect,
                           "final": [x for v in a for x in v], "first": len(script), "codec": codec})
             script += sc
-            # SIE: the cursor machine as it is, and with the seek shortcut repaired (proposed_fixes/C03-6.diff)
-            cods = [] if codec is None else [codec] if codec != "sie" else ["sie", "siefx"]
+            # SIE: the cursor machine with the variant of the seek shortcut that the source has (Gen/SieSeek.v), and with
+            # the other variant (the guard of repo commit a110f5b present / absent)
+            cods = [] if codec is None else [codec] if codec != "sie" else ["sie", "sie!"]
             mlines.append(["%s %d %s %d - ; %s" % (cd, t, sex, max(1, 64 // TSIZE[t]), " ; ".join(ml)) for cd in cods])
     # one process per history, so that a crash (the SIE defects below can corrupt a file to the point
     # where the reader overruns its buffer) is attributed to the history that caused it
@@ -379,15 +385,16 @@ def main():
                 agree = k_
                 break
         mbad = None
-        if mo and agree is None:
+        if mo and agree != 0:
+            # (SIE: agreement is required with the variant the source has; agreeing with the other one only is a broken tie)
             mg, mf, merr = mo[0]
-            mbad = "library reads %s / final %s ; model reads %s / final %s%s" % (
+            mbad = ("the library behaves like the OTHER variant of the seek shortcut than the one read from src/sie.c; " if agree == 1 else "") + "library reads %s / final %s ; model reads %s / final %s%s" % (
                 [gdlib.hexs(x)[:60] if x is not None else None for x in impl_gets][:4], payload.hex()[:120] if payload is not None else None,
                 [gdlib.hexs(x)[:60] for x in mg][:4], (mf or "")[:120], " (model write error)" if merr else "")
-        if (bad and enc == "sie" and agree == 0 and len(mo) == 2 and any(l.startswith("seek ") for l in c["script"])
+        if (bad and enc == "sie" and agree == 0 and not guarded and len(mo) == 2 and any(l.startswith("seek ") for l in c["script"])
                 and not mo[1][2] and mo[1][0] == spec_gets and gdlib.sie_decode(t, sex, bytes.fromhex(mo[1][1] or ""))[1] == c["final"]):
-            # the library does exactly what the model of the present _GD_SampIndSeek does, and the model with the
-            # "already there" shortcut repaired gives the flat array: the open finding
+            # the source has the unguarded shortcut, the library does exactly what that variant of the model does, and the
+            # guarded variant gives the flat array: the defect repaired by a110f5b is back
             key = KEY_SIE_SEEKPUT
         if c["crashed"]:
             bad = "gdrun died: " + c["crash_info"]
@@ -758,6 +765,9 @@ def main():
                        "Plus GD_HERE sequential writes per encoding and BIT/SBIT/PHASE/MPLEX write-through.  non-trivial = distinct (encoding, type, order, final array) "
                        "histories that agreed on everything")
     chk.cov["input_distribution"] = dict(stats, histories={e: ncase[e] for e in ENCS})
+    if trans_problems and not found_any:
+        chk.violation("translator", "translate/tr_sieseek.py cannot read the shortcut of _GD_SampIndSeek in src/sie.c: " + "; ".join(trans_problems[:3]),
+                      {"kind": "translator", "problems": trans_problems, "theorem": "sie_write_refines / sie_histories_refine (variant of the cursor model unknown)"}, found=False)
     if not proved and not found_any:
         chk.violation("proof", "Properties_C03 does not check: " + getattr(chk, "proof_log", "")[-1200:],
                       {"kind": "proof", "theorem": "Properties_C03", "log": getattr(chk, "proof_log", "")[-4000:]}, found=False)
